@@ -1,6 +1,6 @@
 CONSTANTS MaxRow = 1048576 MaxCol = 16384
   NSheets = {1} Pool = "full" NPos = 1 MaxCells = 1 Depth = 2 MaxSaves = 0 Wide = FALSE Emit = "deviant"
-  Dev = {"C01-KF1", "C01-KF2", "C01-KF3", "C01-KF4"}
+  Dev = {"C01-KF2", "C01-KF3", "C01-KF4"}
 SPECIFICATION MCSpec
 INVARIANTS EmitInv
 CHECK_DEADLOCK FALSE
